@@ -41,8 +41,9 @@ fn observe(s: &Sentence) -> Result<Obs, String> {
     if !s.boundary_scores().is_empty() {
         return Err("scores present after update".into());
     }
-    // "character types ... describe exactly the new input, one type per character"
-    let want_types: Vec<u8> = s.as_raw_text().chars().map(crate::gen::char_type).collect();
+    // "character types ... describe exactly the new input, one type per character": by the library's OWN classification
+    // (CharacterType::get_type) -- the statement fixes no table, only that every constructor describes the input with it
+    let want_types: Vec<u8> = s.as_raw_text().chars().map(|c| vaporetto::CharacterType::get_type(c) as u8).collect();
     if s.char_types() != &want_types[..] {
         return Err(format!("character types {:?} of {:?}, expected {:?}", s.char_types(), s.as_raw_text(), want_types));
     }
